@@ -176,6 +176,9 @@ int MPI_Waitsome(int n, MPI_Request* rqs, int* outcount, int* idx, MPI_Status* s
   return MPI_SUCCESS; }
 int MPI_Send(const void* b, int n, MPI_Datatype dt, int d, int t, MPI_Comm c) { MPI_Request r; post_send(b, n, dt, d, t, c, 0, &r); return wait_one(&r, nullptr); }
 int MPI_Recv(void* b, int n, MPI_Datatype dt, int s, int t, MPI_Comm c, MPI_Status* st) { MPI_Request r; MPI_Irecv(b, n, dt, s, t, c, &r); return wait_one(&r, st); }
+// the receive is posted before the send, so two ranks exchanging with each other cannot block each other under any completion mode
+int MPI_Sendrecv(const void* sb, int sn, MPI_Datatype sdt, int dest, int stag, void* rb, int rn, MPI_Datatype rdt, int src, int rtag, MPI_Comm c, MPI_Status* st) {
+  MPI_Request rr, sr; MPI_Irecv(rb, rn, rdt, src, rtag, c, &rr); post_send(sb, sn, sdt, dest, stag, c, 0, &sr); wait_one(&sr, nullptr); return wait_one(&rr, st); }
 void simmpi_log(const char* line) { call(OP_LOG, {}, line, strlen(line)); }
 // directed schedules: block the calling rank until the coordinator has observed a condition (or max_steps scheduling
 // steps have passed: a gate never deadlocks a run).  kind 0: rank `who`, after logging the harness line "E <epoch>", has
